@@ -363,9 +363,9 @@ Proof.
   - unfold poll_step in H. destruct (nth_error (closers s) c) as [x|] eqn:Hx; [|discriminate].
     pose proof (sumf_nth_le wp _ _ _ Hx) as Hle.
     destruct (pc x) eqn:Hpc; try discriminate.
-    1,2: inversion H; subst s'; unfold first_poll; destruct (waits s);
+    1,2: inversion H; subst s'; unfold first_poll; destruct (waits s) eqn:Hw;
          cbn [closers waits set_closers spawn_drop set_droppers]; upd_facts;
-         unfold wp, w_pc in *; cbn [pc] in *; rewrite ?Hpc in *; cbn in *; lia.
+         unfold wp, w_pc in *; cbn [pc] in *; rewrite ?Hpc, ?Hw in *; cbn in *; lia.
     1,3: inversion H; subst s'; unfold try_unwrap; destruct (strong s =? 1);
          cbn [closers waits set_closers]; upd_facts;
          unfold wp, w_pc in *; cbn [pc] in *; rewrite ?Hpc in *; cbn in *; lia.
@@ -444,4 +444,105 @@ Proof.
   cbn [closers droppers strong fd closes spawn_drop set_droppers set_closers].
   split; [apply nth_upd_same; exact Hx|]. cbn [w_pc pc].
   destruct (closer_release_wakes g); cbn [negb]; repeat split; reflexivity.
+Qed.
+
+(* ---------------------------------------------------------------------- *)
+(* the unsync scheduler                                                    *)
+
+Lemma saturate_steps g k l : forall s, exists ls, steps g s ls = Some (saturate g k l s).
+Proof.
+  induction k as [|k IH]; intros s; cbn [saturate].
+  - exists []. reflexivity.
+  - destruct (step g s l) as [s1|] eqn:E.
+    + destruct (IH s1) as [ls H]. exists (l :: ls). cbn [steps]. rewrite E. exact H.
+    + exists []. reflexivity.
+Qed.
+
+Lemma poll_run_steps g k c : forall s, exists ls, steps g s ls = Some (poll_run g k c s).
+Proof.
+  induction k as [|k IH]; intros s; cbn [poll_run].
+  - exists []. reflexivity.
+  - destruct (step g s (LPoll c)) as [s1|] eqn:E; [|exists []; reflexivity].
+    destruct (nth_error (closers s1) c) as [x|].
+    + destruct (returns x).
+      * exists [LPoll c]. cbn [steps]. rewrite E. reflexivity.
+      * destruct (IH s1) as [ls H]. exists (LPoll c :: ls). cbn [steps]. rewrite E. exact H.
+    + exists [LPoll c]. cbn [steps]. rewrite E. reflexivity.
+Qed.
+
+Lemma steps_app g l1 : forall s s1 l2 s2,
+  steps g s l1 = Some s1 -> steps g s1 l2 = Some s2 -> steps g s (l1 ++ l2) = Some s2.
+Proof.
+  induction l1 as [|l r IH]; cbn [steps app]; intros s s1 l2 s2 H1 H2.
+  - inversion H1; subst. exact H2.
+  - destruct (step g s l); [|discriminate]. eapply IH; eauto.
+Qed.
+
+(* every run of the unsync scheduler is a run of the fine-grained relation *)
+Lemma ustep_steps g s l s' : ustep g s l = Some s' -> exists ls, steps g s ls = Some s'.
+Proof.
+  assert (Hfin : forall lab s1, step g s lab = Some s1 ->
+                 exists ls, steps g s ls = Some (finish_drops g s1)).
+  { intros lab s1 H1. destruct (saturate_steps g 4 (LDrop (length (droppers s1) - 1)) s1) as [ls Hls].
+    exists (lab :: ls). cbn [steps]. rewrite H1. exact Hls. }
+  assert (Hone : forall lab, step g s lab = Some s' -> exists ls, steps g s ls = Some s').
+  { intros lab H1. exists [lab]. cbn [steps]. rewrite H1. reflexivity. }
+  destruct l; cbn [ustep]; intros H; eauto.
+  - destruct (step g s LOpFinish) as [s1|] eqn:E; [|discriminate]. inversion H; subst. eauto.
+  - destruct (step g s LDropHandle) as [s1|] eqn:E; [|discriminate]. inversion H; subst. eauto.
+  - destruct (pollable s c); [|discriminate]. inversion H; subst.
+    destruct (poll_run_steps g 6 c s) as [l1 H1].
+    destruct (saturate_steps g 4 (LDrop (length (droppers (poll_run g 6 c s)) - 1)) (poll_run g 6 c s)) as [l2 H2].
+    exists (l1 ++ l2). eapply steps_app; eauto.
+  - destruct (step g s (LFutDrop c)) as [s1|] eqn:E; [|discriminate]. inversion H; subst. eauto.
+Qed.
+
+Lemma usteps_steps g ls : forall s s', usteps g s ls = Some s' -> exists fs, steps g s fs = Some s'.
+Proof.
+  induction ls as [|l r IH]; cbn [usteps]; intros s s' H.
+  - inversion H; subst. exists []. reflexivity.
+  - destruct (ustep g s l) as [s1|] eqn:E; [|discriminate].
+    destruct (ustep_steps _ _ _ _ E) as [l1 H1]. destruct (IH _ _ H) as [l2 H2].
+    exists (l1 ++ l2). eapply steps_app; eauto.
+Qed.
+
+(* a Drop for SharedFd run to its end *)
+Lemma drop_run g n w wk ww f c h o fg cs ds :
+  1 <= n -> (n = 1 -> f = FShared) ->
+  finish_drops g (mk_st n w wk ww f c h o fg cs (ds ++ [DCount])) =
+  mk_st (n - 1) w (if (n =? 2) && w then false else wk) (if (n =? 2) && w then ww || wk else ww)
+        (if n =? 1 then FClosed else f) (if n =? 1 then S c else c) h o fg cs (ds ++ [DDone]).
+Proof.
+  intros Hn Hf. unfold finish_drops. cbn [droppers]. rewrite app_length. cbn [length].
+  replace (length ds + 1 - 1) with (length ds) by lia.
+  cbn [saturate step]. unfold drop_step at 1. cbn [droppers]. rewrite nth_last.
+  cbn [set_droppers strong waits waker wwoken fd closes handles ops forgotten closers droppers].
+  rewrite upd_last.
+  destruct (n =? 2) eqn:E2.
+  - apply Nat.eqb_eq in E2. subst n. cbn [andb].
+    unfold drop_step at 1. cbn [droppers]. rewrite nth_last.
+    cbn [set_droppers strong waits waker wwoken fd closes handles ops forgotten closers droppers].
+    rewrite upd_last.
+    destruct w.
+    + unfold drop_step at 1. cbn [droppers]. rewrite nth_last.
+      unfold do_wake. cbn [waker].
+      destruct wk;
+        cbn [set_droppers strong waits waker wwoken fd closes handles ops forgotten closers droppers];
+        rewrite upd_last;
+        unfold drop_step at 1; cbn [droppers]; rewrite nth_last;
+        unfold do_dec; cbn [strong fd waits waker wwoken closes handles ops forgotten closers droppers set_droppers];
+        rewrite upd_last; cbn [Nat.eqb Nat.sub]; rewrite ?orb_true_r, ?orb_false_r; reflexivity.
+    + unfold drop_step at 1. cbn [droppers]. rewrite nth_last.
+      unfold do_dec; cbn [strong fd waits waker wwoken closes handles ops forgotten closers droppers set_droppers].
+      rewrite upd_last. cbn [saturate step]. unfold drop_step. cbn [droppers]. rewrite nth_last.
+      cbn [Nat.eqb Nat.sub]. reflexivity.
+  - cbn [andb].
+    unfold drop_step at 1. cbn [droppers]. rewrite nth_last.
+    unfold do_dec; cbn [strong fd waits waker wwoken closes handles ops forgotten closers droppers set_droppers].
+    destruct n as [|[|n]]; [lia| |].
+    + rewrite (Hf eq_refl). cbn [strong fd waits waker wwoken closes handles ops forgotten closers droppers set_droppers].
+      rewrite upd_last. cbn [saturate step]. unfold drop_step. cbn [droppers]. rewrite nth_last. reflexivity.
+    + cbn [strong fd waits waker wwoken closes handles ops forgotten closers droppers set_droppers].
+      rewrite upd_last. cbn [saturate step]. unfold drop_step. cbn [droppers]. rewrite nth_last.
+      cbn [Nat.eqb Nat.sub] in *. destruct n; [discriminate|]. reflexivity.
 Qed.
